@@ -23,7 +23,9 @@ RULE = (
     "case = one refinement ladder: ideal reservoir (any p_f/p_i), single-phase on a constant-"
     "diffusivity table (Fourier reference) or on a pressure-dependent table (shipped, library-"
     "built, synthetic; method-of-lines reference), p_f/p_i from 0.05 to 0.999, r = nt/nx in "
-    "{4, 8, 16}, t_end in [3, 12]. Non-trivial = all rungs ran, the reference is self-consistent "
+    "{4, 8, 16}, t_end in [3, 12]; plus parabolic ladders (uniform dt = theta dx^2, nx 10..80) and "
+    "space-only ladders (nx 50..800 on a fixed coarse time grid, field at t >= 0.4 only); tables also "
+    "listed in descending / shuffled row order. Non-trivial = all rungs ran, the reference is self-consistent "
     "(two MOL resolutions agree 10x better than the error judged) and the coarsest-rung recovery "
     "error exceeds 1e-4 (so that shrinking can be observed); distinct = descriptor hash."
 )
